@@ -141,7 +141,7 @@ def crateNames (o : Out) : List String :=
 def preludeTypeNames : List String := ["Option", "String", "Vec", "Default"]
 
 /-- prelude names of the value namespace the generated text spells -/
-def preludeValueNames : List String := ["None", "Some"]
+def preludeValueNames : List String := ["None", "Some", "Ok", "Err"]
 
 /-! ### Issues -/
 
@@ -218,7 +218,8 @@ def resolveVertex (o : Out) : List Issue :=
   let vnames := o.vertex.map (·.name)
   (o.vertex.filterMap fun v => if snames.contains v.name then none else some (Issue.definite "unresolved-vertex-struct" v.name)) ++
   (o.vertex.flatMap fun v =>
-    (if snames.contains v.strideOf then [] else [Issue.definite "unresolved-type" v.strideOf]) ++
+    -- (a missing struct of the block's own name is reported once, by the clause above)
+    (if snames.contains v.strideOf || v.strideOf == v.name then [] else [Issue.definite "unresolved-type" v.strideOf]) ++
     (if vnames.contains v.attrsOf then [] else [Issue.definite "unresolved-attrs" v.attrsOf]) ++
     v.attrs.filterMap fun a =>
       if !snames.contains a.ofStruct then none    -- reported above
@@ -265,12 +266,26 @@ def resolvePush (o : Out) : List Issue :=
 def resolveIssues (o : Out) : List Issue :=
   resolveFieldTypes o ++ resolveVertex o ++ resolveEntries o ++ resolveGroups o ++ resolvePush o
 
+/-- the leaf of a field type that decides a derive obligation, for messages: `bool`, `f64`, `glam-DVec3`, `array-33`, .. -/
+def tyTag (tr : String) : RustTy → String
+  | .prim s => s
+  | .array t n =>
+    if (tr == "serde::Serialize" || tr == "serde::Deserialize") && decide (32 < n) then "array-" ++ toString n
+    else if tr == "encase::ShaderType" && n == 0 then "array-0" else tyTag tr t
+  | .glam s => "glam-" ++ s
+  | .nalgebraV _ _ => "nalgebra"
+  | .nalgebraM _ _ _ => "nalgebra"
+  | .named n => "struct-" ++ n
+  | .vec t => tyTag tr t
+  | .option t => tyTag tr t
+  | .unknown s => "unknown-" ++ s
+
 /-- every derive is satisfiable; structural requirements of the derive macros -/
 def deriveIssues (o : Out) : List Issue :=
   o.structs.flatMap fun s =>
     (s.derives.flatMap fun d => s.fields.filterMap fun f =>
       if implements o.structs d f.ty then none
-      else some (Issue.definite "derive-unsat" (d ++ ":" ++ s.name ++ "." ++ f.name))) ++
+      else some (Issue.definite "derive-unsat" (d ++ ":" ++ tyTag d f.ty ++ ":" ++ s.name ++ "." ++ f.name))) ++
     (if s.derives.contains "Copy" && !s.derives.contains "Clone" then [Issue.definite "derive-shape" ("Copy-without-Clone:" ++ s.name)] else []) ++
     (if s.derives.contains "bytemuck::Pod" && !s.reprC then [Issue.definite "derive-shape" ("Pod-without-repr:" ++ s.name)] else []) ++
     (if s.derives.contains "bytemuck::Pod" && !s.derives.contains "Copy" then [Issue.definite "derive-shape" ("Pod-without-Copy:" ++ s.name)] else []) ++
@@ -286,13 +301,20 @@ def literalIssues (o : Out) : List Issue :=
 def keywordIssues (o : Out) : List Issue :=
   (emittedIdents o).filterMap fun n => if rustKeywords.contains n then some (Issue.definite "keyword-ident" n) else none
 
-/-- lower-case constants: an unhygienic `let name` / pattern in a derive expansion or in the generated
-functions resolves to the constant (E0530 / E0005).  Which locals the derive macros use is not
-transcribed: outside the domain. -/
+/-- constants the generated module defines itself -/
+def generatedConstNames (o : Out) : List String :=
+  o.entryConsts.map (·.1) ++ ["SOURCE"] ++ (match o.pushStages with | some p => [p.1] | none => [])
+
+/-- constants that an unhygienic `let name` / pattern of a derive expansion or of the generated functions can
+resolve to (E0530 / E0005 / E0308): a user constant with a lower-case letter, and ANY constant in scope - user or
+generated (`SOURCE`, `ENTRY_*`, `PUSH_CONSTANT_STAGES`) or from the prelude (`None`, `Some`, `Ok`, `Err`) - that is named like a struct field (the derive macros bind
+the field names).  Which locals the derive macros use is not transcribed: outside the domain. -/
 def captureIssues (o : Out) : List Issue :=
   let fieldNames := o.structs.flatMap fun s => s.fields.map (·.name)
-  o.consts.filterMap fun c =>
-    if hasLower c.name || fieldNames.contains c.name then some (Issue.unknown "const-may-be-captured" c.name) else none
+  (o.consts.filterMap fun c =>
+    if hasLower c.name || fieldNames.contains c.name then some (Issue.unknown "const-may-be-captured" c.name) else none) ++
+  ((generatedConstNames o ++ preludeValueNames).filterMap fun n =>
+    if fieldNames.contains n then some (Issue.unknown "const-may-be-captured" n) else none)
 
 def issues (o : Out) : List Issue :=
   nameIssues o ++ shadowIssues o ++ resolveIssues o ++ deriveIssues o ++ literalIssues o ++ keywordIssues o ++ captureIssues o
